@@ -4,7 +4,7 @@
    outputs the implementation produced); the runner returns the indices of operations whose model
    output differs. *)
 From Coq Require Import ZArith List Bool.
-From GCL Require Import Model.Grpc Run.LimitsRun.
+From GCL Require Import Model.Grpc Run.LimitsRun Run.MeasureRun.
 Import ListNotations.
 Open Scope Z_scope.
 
@@ -23,6 +23,7 @@ Definition run_stateless (f : Z -> list Z -> list Z) (ops : list zop) : list (li
 Definition run_case (comp : Z) (cfg : list Z) (ops : list zop) : list (list Z) :=
   if comp =? 14 then run_stateless (Grpc.step_z cfg) ops
   else if comp =? 30 then run_gen limits_step (limits_init cfg) ops
+  else if comp =? 18 then run_gen meas_step (meas_init cfg) ops
   else [].
 
 Fixpoint zlist_eqb (a b : list Z) : bool :=
